@@ -185,6 +185,15 @@ def analyse(pid, shard, rc):
         replay = os.path.join(rdir, "log-%s-%d.txt" % ("-".join(sorted(set(fails)))[:60].replace("/", "_"), int(time.time())))
         with open(replay, "w") as f:
             f.write(txt[-20000:])
+    if key is None and "WARNING: DATA RACE" in txt:
+        # the race detector failed the test: name the first frame inside the repository as the root cause
+        race = txt[txt.index("WARNING: DATA RACE"):]
+        fm = re.search(r"^\s+github\.com/google/gce-tcb-verifier/(\S+?)\(\)", race, re.M)
+        key = "%s/data-race/%s" % (pid, fm.group(1) if fm else "outside-the-repository")
+        msg = "the race detector reported a data race (first repository frame: %s) in %s; report in %s" % (fm.group(1) if fm else "none", fails[-1], replay)
+        if os.path.basename(replay).startswith("log-"):
+            with open(replay, "w") as f:
+                f.write(race[:20000])
     if msg is None:
         # last failing test's message
         msg = "test %s failed (no root-cause key); see %s" % (fails[-1], replay)
